@@ -46,6 +46,8 @@ def cases(tier, seed):
     out = pool.pool_cases(tier, seed, ['c01', 'c02', 'c07', 'c08', 'c13', 'c03', 'c05', 'c06', 'c04', 'c09'], 250 if tier == 'quick' else 2000)
     if True:
         out.insert(0, pool.ambient_case(PID))
+    if tier == 'thorough':
+        out.insert(0, pool.ambient_docs_case(PID))
     DP = [(1, 1), (2, 2), (3, 1), (4, 3)] if tier == 'quick' else [(1, 1), (2, 1), (2, 2), (3, 3), (4, 1), (5, 2)]
     for (D, P) in DP:
         for shape in [(3,), (2, 2), (3, 3), ()]:
@@ -78,10 +80,10 @@ def _floordiv(ctx, p, rng):
 def run_case(ctx, case):
     if case['kind'] == 'pool':
         return pool.run_host(case)
-    if case['kind'] == 'ambient':
+    if case['kind'] in ('ambient', 'ambient-docs'):
         probe.S.suppress = True
         try:
-            return pool.run_ambient(ctx, PID)
+            return pool.run_ambient(ctx, PID) if case['kind'] == 'ambient' else pool.run_ambient_docs(ctx, PID)
         finally:
             probe.S.suppress = False
     if case['kind'] == 'floordiv':
